@@ -175,7 +175,7 @@ class Generator:
             j = i + 1
             while j < len(lines):
                 sj = lines[j].strip()
-                if re.match(r"^//@(\||loop\s|rewrite|rewriteall|before|afterstmt|after|sig\s|from\s|fromafter\s|to\s|until\s|tail\s|ghostdefault\s|localdefault\s)", sj):
+                if re.match(r"^//@(\||loop\s|rewrite|rewriteall|before|afterstmt|after|sig\s|from\s|fromafter\s|to\s|toblock|until\s|tail\s|ghostdefault\s|localdefault\s)", sj):
                     cont.append(self._subst_lit(sj))
                     j += 1
                 else:
@@ -228,6 +228,8 @@ class Generator:
             if m: to = m.group(1); continue
             m = re.match(r"^//@until\s*<<<(.*)>>>\s*$", c)
             if m: to = m.group(1); until = True; continue
+            if re.match(r"^//@toblock\s*$", c):
+                to = "\x00block"; continue   # the region ends with the `}` that closes the first `{` at or after the `from` anchor
             m = re.match(r"^//@\|\s?(.*)$", c)
             if m: spec += m.group(1) + "\n"; continue
             m = re.match(r"^//@loop\s+(\d+)\|\s?(.*)$", c)
@@ -238,11 +240,25 @@ class Generator:
         if not (sig and frm and to):
             raise AnchorLost("region needs sig/from/to")
         mf = list(re.finditer(r"\{", text))[:1] if frm == "^" else list(self._ws_regex(frm).finditer(text))
-        mt = list(self._ws_regex(to).finditer(text))
+        if to == "\x00block":
+            mt = []
+            if len(mf) == 1:
+                toks = code_tokens(lex(text))
+                pairs = match_brackets(toks)
+                for k, t in enumerate(toks):
+                    if t.start >= mf[0].start() and t.text == "{":
+                        class _M:   # minimal stand-in for a regex match object
+                            def __init__(self, a, b): self._a, self._b = a, b
+                            def start(self): return self._a
+                            def end(self): return self._b
+                        mt = [_M(toks[pairs[k]].start, toks[pairs[k]].end)]
+                        break
+        else:
+            mt = list(self._ws_regex(to).finditer(text))
         if len(mf) != 1 or len(mt) != 1 or mt[0].end() <= mf[0].start():
             raise AnchorLost("region anchors not found exactly once in %s (from:%d to:%d)" % (path, len(mf), len(mt)))
         body = text[(mf[0].end() if (frm == "^" or fromafter) else mf[0].start()):(mt[0].start() if until else mt[0].end())]
-        rules = ["E1' region of %s between `%s` and `%s` wrapped as `%s` (substitution-based extraction)" % (path, frm[:50], to[:50], sig[:80])]
+        rules = ["E1' region of %s between `%s` and `%s` wrapped as `%s` (substitution-based extraction)" % (path, frm[:50], to.replace("\x00block", "the end of that block")[:50], sig[:80])]
         if body.rstrip().endswith(","):
             # a field initialiser `name: EXPR,` used as the value of a function: the separating comma is dropped
             body = body.rstrip()[:-1]
